@@ -25,7 +25,7 @@ TRUSTED = ['Coq 8.16.1 kernel + vm_compute (no native_compute)',
            '(discrete outputs exact, floats within 4 ulp) and vs find_root under jit+vmap (tolerance, near-tie runs skipped)',
            'NaN is modelled as None: not-bracketed start (final mask), 0/0 in the Newton branch (unreachable for r_tol >= 0), not converged at the cap',
            'jax.lax.custom_root applies the tangent solve to the linearised residual; jax.grad of primitives is the derivative']
-ASSUMPTIONS = ['exact real arithmetic in theorems (no overflow/underflow; the product in the Newton range test underflows for |f| < 1e-150: finding F7e; over R the sign test sign(fl)*sign(fh) < 0 is the product test; binary64 behaviour for residual magnitudes 1e-200..1e-300 is covered by the correspondence streams)',
+ASSUMPTIONS = ['exact real arithmetic in theorems (no overflow/underflow; both the bracket test and the Newton range test compare signs in the source (repo ed1d80c, fd0580b: findings F7d, F7e fixed), which over R is the product test -- lemma sign_product_test; binary64 behaviour for residual magnitudes 1e-200..1e-300 is covered by the correspondence streams)',
                'f and f\' are total real functions; continuity of f only where stated (IVT); C17_ift assumes the root map is differentiable']
 RULE = ('inputs: seeded families (polynomials with 1-3 roots incl. multiple roots, sign(x-c)|x-c|^(1/2^k) steep power laws, rational sigmoid), '
         'brackets of both orientations and widths 1e-3..1e6, guesses inside/outside/at end points, settings max_iters in {5,20,50,100}, '
